@@ -29,6 +29,12 @@ func (h *restoreErrorHandler) ServeHTTP(writer http.ResponseWriter, request *htt
 	fnError := interop.FunctionError{Type: errorType}
 
 	runtime := h.registrationService.GetRuntime()
+	if runtime == nil {
+		// no runtime is registered (not launched yet, or cleared by a reset): the call is illegal in this state
+		rendering.RenderForbiddenWithTypeMsg(writer, request, rendering.ErrorTypeInvalidStateTransition, StateTransitionFailedForRuntimeMessageFormat,
+			runtimeNotRegisteredStateName, core.RuntimeRestoreErrorStateName, runtimeNotRegisteredError)
+		return
+	}
 
 	if err := runtime.RestoreError(fnError); err != nil {
 		log.Warn(err)
